@@ -408,7 +408,22 @@ func (b *Builder) Unit(kind hist.UnitKind) hist.Unit {
 			w := firstWord(u.SQL)
 			u.SQL = Casing(r, w) + u.SQL[len(w):]
 		}
-		if r.Chance(1, 4) {
+		if r.Chance(1, 5) {
+			// ... and comments in front of it are logged with it: tools tag their
+			// statements, mysqldump wraps DDL in version comments
+			switch r.Intn(5) {
+			case 0:
+				u.SQL = "/* ApplicationName=verif */ " + u.SQL
+			case 1:
+				u.SQL = "/*!40000 " + u.SQL + " */"
+			case 2:
+				u.SQL = "-- a note\n" + u.SQL
+			case 3:
+				u.SQL = "# a note\n" + u.SQL
+			default:
+				u.SQL = "/* a */ /* b */\n" + u.SQL
+			}
+		} else if r.Chance(1, 4) {
 			// statements are logged as the client wrote them: the keyword may be
 			// followed by a tab or a line break instead of a blank
 			w := firstWord(u.SQL)
